@@ -15,7 +15,7 @@ import time
 VERIF = os.path.dirname(os.path.dirname(os.path.abspath(__file__)))
 REPO = os.environ.get("VERIF_REPO", "/repo")
 CACHE = os.path.join(VERIF, ".cache")
-LL2C = os.path.join(CACHE, "ll2c")
+LL2C = os.environ.get("VERIF_LL2C") or os.path.join(CACHE, "ll2c")
 BUILD_INC = "/repo/_build" if os.path.exists("/repo/_build/include/simgrid/config.h") else os.path.join(CACHE, "repo_build")
 INC = [f"-I{BUILD_INC}/include", f"-I{REPO}/include", "-I/usr/include/eigen3", f"-I{BUILD_INC}", f"-I{REPO}",
        f"-I{REPO}/src/smpi/include", f"-I{VERIF}/harness"]
